@@ -673,6 +673,109 @@ func main() {
 	sort.Strings(loaderEnvs)
 	emit("loaderEnvs", "Env of every packages.Config literal in the product code", loaderEnvs)
 	emit("limits", "numeric limits and thresholds read from the source: file:Name=expression", consts)
+	// the configuration surface: every environment variable the product code reads, by area
+	er := envReads(root)
+	area := func(prefixes ...string) []string {
+		var out []string
+		for _, e := range er {
+			for _, p := range prefixes {
+				if strings.HasPrefix(e, p) {
+					out = append(out, e)
+					break
+				}
+			}
+		}
+		return out
+	}
+	emit("envReads", "every environment variable the product code reads (os.Getenv / os.LookupEnv): file:NAME", er)
+	emit("envReadsAnalysis", "… in the analysis, diff and command-line code", area("pkg/analysis/", "pkg/diff/", "internal/cli/", "cmd/sfw/"))
+	emit("envReadsStorage", "… in the storage, detection and command-line code", area("pkg/storage/", "pkg/detection/", "internal/cli/", "cmd/sfw/"))
+	emit("envReadsAudit", "… in the audit path", area("internal/llm/", "internal/cli/", "cmd/sfw/"))
+	emit("envReadsSandbox", "… in the sandbox", area("internal/sandbox/"))
 	_ = loopDecls
 	fmt.Println("\nend Sfw.Facts")
+}
+
+// envReads walks every non-test source file of cmd/, internal/ and pkg/ and lists the environment
+// variables read with os.Getenv / os.LookupEnv.  A name given through a package-level string constant
+// is resolved (by name, across the tree); anything else is listed as <dynamic:expression>.
+func envReads(root string) []string {
+	var files []*file
+	for _, top := range []string{"cmd", "internal", "pkg"} {
+		filepath.Walk(filepath.Join(root, top), func(p string, info os.FileInfo, err error) error {
+			if err != nil || info.IsDir() {
+				if err == nil && (info.Name() == "verifharness" || info.Name() == "testdata") {
+					return filepath.SkipDir
+				}
+				return nil
+			}
+			if !strings.HasSuffix(p, ".go") || strings.HasSuffix(p, "_test.go") || strings.HasPrefix(info.Name(), "verif_") {
+				return nil
+			}
+			rel, _ := filepath.Rel(root, p)
+			f, perr := parser.ParseFile(fset, p, nil, parser.SkipObjectResolution)
+			if perr != nil {
+				return nil // a file that does not parse reads nothing
+			}
+			files = append(files, &file{filepath.ToSlash(rel), f})
+			return nil
+		})
+	}
+	consts := map[string]string{}
+	for _, f := range files {
+		for _, d := range f.f.Decls {
+			gd, ok := d.(*ast.GenDecl)
+			if !ok || (gd.Tok != token.CONST && gd.Tok != token.VAR) {
+				continue
+			}
+			for _, sp := range gd.Specs {
+				vs, ok := sp.(*ast.ValueSpec)
+				if !ok {
+					continue
+				}
+				for i, n := range vs.Names {
+					if i < len(vs.Values) {
+						if bl, ok := vs.Values[i].(*ast.BasicLit); ok && bl.Kind == token.STRING {
+							consts[n.Name] = strings.Trim(bl.Value, "\"`")
+						}
+					}
+				}
+			}
+		}
+	}
+	seen := map[string]bool{}
+	var out []string
+	for _, f := range files {
+		ast.Inspect(f.f, func(n ast.Node) bool {
+			call, ok := n.(*ast.CallExpr)
+			if !ok || len(call.Args) != 1 {
+				return true
+			}
+			fn := exprStr(call.Fun)
+			if fn != "os.Getenv" && fn != "os.LookupEnv" {
+				return true
+			}
+			name := "<dynamic:" + exprStr(call.Args[0]) + ">"
+			switch a := call.Args[0].(type) {
+			case *ast.BasicLit:
+				name = strings.Trim(a.Value, "\"`")
+			case *ast.Ident:
+				if v, ok := consts[a.Name]; ok {
+					name = v
+				}
+			case *ast.SelectorExpr:
+				if v, ok := consts[a.Sel.Name]; ok {
+					name = v
+				}
+			}
+			e := f.rel + ":" + name
+			if !seen[e] {
+				seen[e] = true
+				out = append(out, e)
+			}
+			return true
+		})
+	}
+	sort.Strings(out)
+	return out
 }
